@@ -928,6 +928,106 @@ def aliased_reference_locals(func):
     return out
 
 
+def aliased_reference_params(func):
+    """[(param, call site, write node, verdict)] for local lambdas of func that take a `const T&` parameter
+    bound, at a call, to an element of an object the lambda itself writes while it still reads the
+    parameter.  verdict is 'alias' when every index pair is equal or ranges over a loop variable of the
+    lambda, 'unknown' when some pair cannot be compared."""
+    out = []
+    body = body_of(func)
+    if body is None:
+        return out
+
+    def root_of(e):
+        e = strip(e)
+        idx = []
+        while e is not None and e.get('kind') in ('ArraySubscriptExpr', 'ImplicitCastExpr', 'ParenExpr', 'CXXOperatorCallExpr', 'MaterializeTemporaryExpr'):
+            if e.get('kind') == 'MaterializeTemporaryExpr':
+                return None, []
+            if e.get('kind') == 'ArraySubscriptExpr':
+                idx.append(e['inner'][1])
+                e = strip(e['inner'][0])
+            elif e.get('kind') == 'CXXOperatorCallExpr' and call_name(e) == 'operator[]':
+                idx.append(kids(e)[2])
+                e = strip(kids(e)[1])
+            elif kids(e):
+                e = strip(kids(e)[0])
+            else:
+                break
+        return (canon(e) if e is not None else None), idx
+    lambdas = {}
+    for vd in walk(body):
+        if vd.get('kind') == 'VarDecl' and kids(vd):
+            le = next((x for x in walk(kids(vd)[-1]) if x.get('kind') == 'LambdaExpr'), None)
+            if le is not None:
+                op = next((m for m in walk(le) if m.get('kind') == 'CXXMethodDecl' and m.get('name') == 'operator()' and body_of(m) is not None), None)
+                if op is not None:
+                    lambdas[vd['id']] = (vd, op)
+    for c in walk(body):
+        if c.get('kind') != 'CXXOperatorCallExpr' or call_name(c) != 'operator()' or len(kids(c)) < 2:
+            continue
+        lv = lambdas.get((ref_decl(kids(c)[1]) or {}).get('id'))
+        if lv is None:
+            continue
+        vd, op = lv
+        ps = params_of(op)
+        args = kids(c)[2:]
+        pmap = {p_['id']: a_ for p_, a_ in zip(ps, args)}
+        lb = body_of(op)
+        for p_, a_ in zip(ps, args):
+            qt = (qtype(p_) or '').rstrip()
+            if not qt.endswith('&') or 'const' not in qt:
+                continue
+            root, idx = root_of(a_)
+            if not root or not idx:
+                continue
+            reads = [x for x in walk(lb) if x.get('kind') == 'DeclRefExpr' and (x.get('referencedDecl') or {}).get('id') == p_['id']]
+            if not reads:
+                continue
+            for wn in walk(lb):
+                k = wn.get('kind')
+                tgt = None
+                if k in ('BinaryOperator', 'CompoundAssignOperator') and wn.get('opcode') in ASSIGN_OPS:
+                    tgt = wn['inner'][0]
+                elif k == 'UnaryOperator' and wn.get('opcode') in ('++', '--'):
+                    tgt = wn['inner'][0]
+                if tgt is None:
+                    continue
+                wroot, widx = root_of(tgt)
+                if wroot != root or len(widx) != len(idx):
+                    continue
+                lp = enclosing(wn, LOOPS)
+                live = any(r_.get('_off', 0) > wn.get('_off', 0) or (lp is not None and any(a2 is lp for a2 in _ancestors(r_))) for r_ in reads)
+                if not live:
+                    continue
+                local_ids = {v_['id'] for v_ in walk(lb) if v_.get('kind') == 'VarDecl'}
+                caller_facts = set()
+                for n_, pol in atoms(path_facts(c)):
+                    r_ = relation(n_, pol)
+                    if r_ and r_[1] == '!=':
+                        caller_facts.add(frozenset((canon(r_[0]), canon(r_[2]))))
+                verdict = 'alias'
+                for wi, ei in zip(widx, idx):
+                    rd_ = ref_decl(wi)
+                    wi_c = canon(pmap[rd_['id']]) if rd_ is not None and rd_.get('id') in pmap else canon(wi)
+                    ei_c = canon(ei)
+                    if int_value(wi) is not None and int_value(ei) is not None and int_value(wi) != int_value(ei):
+                        verdict = None
+                        break
+                    if frozenset((wi_c, ei_c)) in caller_facts:
+                        verdict = None
+                        break
+                    if rd_ is not None and rd_.get('id') in local_ids:
+                        continue            # a loop variable of the lambda: takes every value
+                    if wi_c == ei_c:
+                        continue
+                    verdict = 'unknown'
+                if verdict:
+                    out.append((p_, c, wn, verdict))
+                    break
+    return out
+
+
 def _ancestors(n):
     n = n.get('_p')
     while n is not None:
